@@ -5,6 +5,8 @@
     Vectors are functions [nat -> Q] restricted to indices below [n]; the executable entry
     points at the end of the file take lists. *)
 From Coq Require Export QArith Qabs Qreduction List Arith Bool.
+
+Module PageRankM.
 Export ListNotations.
 Local Open Scope Q_scope.
 
@@ -251,3 +253,7 @@ Fixpoint l1dist (a b : list Q) : Q :=
   | x :: a', y :: b' => Qabs (x - y) + l1dist a' b'
   | _, _ => 0
   end.
+
+
+End PageRankM.
+Export PageRankM.
